@@ -579,6 +579,17 @@ func SetValue(dest, v reflect.Value) {
 	case reflect.Uint, reflect.Uint8, reflect.Uint16, reflect.Uint32, reflect.Uint64:
 		dest.SetUint(EnsureUint64(v.Interface()))
 		return
+	case reflect.String:
+		if v.Kind() == reflect.String {
+			// a named string type (type Label string)
+			dest.SetString(v.String())
+			return
+		}
+	case reflect.Bool:
+		if v.Kind() == reflect.Bool {
+			dest.SetBool(v.Bool())
+			return
+		}
 	case reflect.Map:
 		if v.Kind() == reflect.Map {
 			// a generic map read from an untyped wire map
